@@ -312,8 +312,11 @@ LOOP:
 		}
 		r.hw = hw
 		segments = r.cl.Segments()
-		hwIdx, hwPos, err := getHWPos(segments, r.hw)
-		if err != nil {
+		// Do not declare a new err here: it would shadow the returned err and
+		// the break below would report success for a read of zero bytes.
+		hwIdx, hwPos, hwErr := getHWPos(segments, r.hw)
+		if hwErr != nil {
+			err = hwErr
 			break
 		}
 		r.hwPos = hwPos
